@@ -233,9 +233,19 @@ func loadSpecs(repo, mirror string, overlay map[string][]byte) (*SpecDB, error) 
 		// mirror layout: contracts/<pkg dir with / replaced by __>/contracts_verif.go
 		dir := strings.ReplaceAll(filepath.Dir(rel), "__", "/")
 		rf := filepath.Join(repo, dir, "contracts_verif.go")
-		if _, err := os.Stat(rf); err == nil {
+		if _, err := os.Stat(rf); err == nil && mirror == "/verif/contracts" {
+			// the copy in /repo is authoritative; the mirror is where contracts are edited
+			if a, e1 := os.ReadFile(rf); e1 == nil {
+				if b, e2 := os.ReadFile(mf); e2 == nil && string(a) != string(b) {
+					fmt.Fprintf(os.Stderr, "WARNING: %s differs from its mirror %s; the /repo copy is used (run tools/sync_contracts.sh and commit)\n", rf, mf)
+				}
+			}
 			files = append(files, rf)
 			db.source[rf] = "repo"
+		} else if err == nil {
+			// an explicit -contracts directory overrides the copies in /repo (experiments)
+			files = append(files, mf)
+			db.source[mf] = "explicit contracts directory"
 		} else {
 			files = append(files, mf)
 			db.source[mf] = "mirror (file missing in /repo)"
